@@ -286,7 +286,12 @@ func (h *VAdv) JudgeFuture(r *VAdvResult, x *explore.Exec, prefix string, advers
 		x.Violations = append(x.Violations, explore.Violation{Fingerprint: prefix + "/" + fp, Detail: fmt.Sprintf("%s n=%d t=%d seq#%d [%s]: ", k.SchemeID, k.N, k.T, r.Seq, SeqLabel(h.Seqs[r.Seq])) + fmt.Sprintf(f, a...)})
 	}
 	for _, d := range r.Net.Ledger {
-		cur := common.CurrentRound(d.SenderNow.Unix(), k.Period, k.Genesis)
+		// the round V's clock is in, computed here (not with the repository's CurrentRound, which answers 1 before
+		// genesis): no round before genesis, then one per period
+		cur := uint64(0)
+		if now := d.SenderNow.Unix(); now >= k.Genesis {
+			cur = uint64((now-k.Genesis)/int64(k.Period/time.Second)) + 1
+		}
 		if d.Round > cur+1 && d.ReceiverOK {
 			add("future-partial-accepted", "V accepted a partial for round %d while its clock was in round %d", d.Round, cur)
 		}
